@@ -398,7 +398,7 @@ var methodNames = []string{"Do", "Get", "Put", "Run", "Close", "Read", "Write", 
 var unexportedMethodNames = []string{"do", "m1"}
 
 var tparamNames = []string{"T", "K", "V", "E", "Elem"}
-var hostileTParamNames = []string{"t", "elem", "any2", "M", "I", "mock", "x"}
+var hostileTParamNames = []string{"t", "elem", "any2", "M", "I", "mock", "x", "Stringer", "Num"}
 
 var ifaceNames = []string{"Service", "Store", "Handler", "Repo", "Client", "Doer", "Thing", "Iface", "Widget", "API"}
 var unexportedIfaceNames = []string{"service", "doer", "thing"}
@@ -411,7 +411,7 @@ func (g *gctx) iface(name string, file int) Iface {
 		used := map[string]bool{}
 		for i := 0; i < ntp; i++ {
 			pool := tparamNames
-			if !g.o.BenignNames && !g.o.avoid("tparam:lowercase") && g.intn("hostiletp", 0, 5) == 0 {
+			if !g.o.BenignNames && !g.o.avoid("tparam:lowercase") && g.intn("hostiletp", 0, 3) == 0 {
 				pool = hostileTParamNames
 			}
 			n := g.pick("tpname", pool)
@@ -424,7 +424,7 @@ func (g *gctx) iface(name string, file int) Iface {
 			used[n] = true
 			var cands []string
 			for _, c := range Constraints {
-				if c.Dep && i == 0 {
+				if c.Dep && i == 0 || c.Key == "fwd-slice" {
 					continue
 				}
 				if g.o.avoid("constraint:" + c.Key) {
@@ -449,6 +449,13 @@ func (g *gctx) iface(name string, file int) Iface {
 				ck = g.pick("constraint", cands)
 			}
 			it.TParams = append(it.TParams, TParam{Name: n, Constraint: ck})
+		}
+		if len(it.TParams) >= 2 && g.intn("fwdref", 0, 3) == 0 {
+			// a forward reference: the first parameter's constraint names the second one
+			it.TParams[0].Constraint = "fwd-slice"
+			if FindConstraint(it.TParams[1].Constraint).Dep {
+				it.TParams[1].Constraint = "any"
+			}
 		}
 		g.tparams = it.TParams
 	}
@@ -512,6 +519,7 @@ var modPaths = []string{"example.com/m", "example.com/deep/er/mod", "m", "github
 
 var pkgDirs = []struct{ dir, name string }{
 	{"svc", "svc"}, {"internal/store", "store"}, {"pkg/api/v1", "v1"}, {"", "root"}, {"odd", "notodd"}, {"httpd", "http"}, {"app/mock", "mock"}, {"tmpl", "template"},
+	{"xhttp", "http"}, // the package name is a proper suffix of the directory name
 }
 
 // Gen draws a module.
@@ -579,6 +587,10 @@ func Gen(t *rapid.T, o Opts) Module {
 			if o.AllowUnexported && g.intn("unexpi", 0, 4) == 0 {
 				pool = unexportedIfaceNames
 			}
+			if d.name == "http" {
+				// names that net/http exports too: a tool that takes this package for net/http finds them there
+				pool = []string{"Handler", "Client", "Handler", "Client", "Service"}
+			}
 			n := g.pick("iname", pool)
 			if usedN[n] {
 				continue
@@ -617,4 +629,70 @@ func Gen(t *rapid.T, o Opts) Module {
 		m.Pkgs = append(m.Pkgs, Pkg{Dir: "svc", Name: "svc", Files: 1, Ifaces: []Iface{g.iface("Service", 0)}})
 	}
 	return m
+}
+
+// TemplateLocals are the identifiers the shipped templates themselves introduce inside a
+// generated method body.
+var TemplateLocals = map[string][]string{
+	"testify": {"ret", "_mock", "_m", "_c", "_e", "_va", "_ca", "args", "run", "returnFunc", "tmpRet", "r0", "r1", "ok", "variadicArgs", "mock", "i"},
+	"matryer": {"mock", "callInfo", "calls", "lockGet", "ok", "i", "_", "r0"},
+}
+
+// HostileLocals renames, in some methods, one parameter to an identifier the named template
+// uses for its own locals. Preferred victims are parameters whose type admits len() and a
+// zero length (slices, maps, strings, channels): a generated statement that reads the
+// template's local by its literal name then silently reads the parameter instead.
+func HostileLocals(t *rapid.T, m *Module, template string) int {
+	pool := TemplateLocals[template]
+	n := 0
+	for pi := range m.Pkgs {
+		for ii := range m.Pkgs[pi].Ifaces {
+			it := &m.Pkgs[pi].Ifaces[ii]
+			for mi := range it.Methods {
+				sg := &it.Methods[mi].Sig
+				if len(sg.Params) == 0 || rapid.IntRange(0, 2).Draw(t, "hostile-local") != 0 {
+					continue
+				}
+				victim := rapid.IntRange(0, len(sg.Params)-1).Draw(t, "victim")
+				for i, p := range sg.Params {
+					last := i == len(sg.Params)-1
+					if (last && sg.Variadic) || p.T.K == "slice" || p.T.K == "map" || p.T.K == "chan" || (p.T.K == "basic" && p.T.Name == "string") {
+						if rapid.IntRange(0, 1).Draw(t, "prefer-lenable") == 0 {
+							victim = i
+						}
+						break
+					}
+				}
+				name := rapid.SampledFrom(pool).Draw(t, "local")
+				clash := name == "_"
+				for i, p := range sg.Params {
+					if i != victim && p.Name == name {
+						clash = true
+					}
+				}
+				for _, r := range sg.Results {
+					if r.Name == name {
+						clash = true
+					}
+				}
+				for _, tp := range it.TParams {
+					if tp.Name == name {
+						clash = true
+					}
+				}
+				if clash {
+					continue
+				}
+				sg.Params[victim].Name = name
+				// Go forbids mixing named and unnamed parameters
+				for i := range sg.Params {
+					if sg.Params[i].Name == "" {
+						sg.Params[i].Name = fmt.Sprintf("q%d", i)
+					}
+				}
+				n++
+			}
+		}
+	}
+	return n
 }
